@@ -117,6 +117,9 @@ impl<C> ProtoTarget<C> {
     pub fn new(mode: u8) -> Self {
         ProtoTarget { mode, bbox: rect(BIG_BOX.0, BIG_BOX.1, BIG_BOX.2, BIG_BOX.3), calls: vec![] }
     }
+    pub fn with_box(mode: u8, bbox: Rectangle) -> Self {
+        ProtoTarget { mode, bbox, calls: vec![] }
+    }
 }
 impl<C> Dimensions for ProtoTarget<C> {
     fn bounding_box(&self) -> Rectangle {
@@ -127,7 +130,9 @@ impl<C: PixelColor> DrawTarget for ProtoTarget<C> {
     type Color = C;
     type Error = core::convert::Infallible;
     fn draw_iter<I: IntoIterator<Item = Pixel<C>>>(&mut self, px: I) -> Result<(), Self::Error> {
-        let s = consume(self.mode, px.into_iter().map(|Pixel(p, c)| ((p.x, p.y), c)));
+        // (the iterator is consumed as handed over: an adapter such as `map` in between would hide its `nth`)
+        let s = consume(self.mode, px.into_iter());
+        let s = Seen { items: s.items.into_iter().map(|(i, Pixel(p, c))| (i, ((p.x, p.y), c))).collect(), hint: s.hint, total: s.total };
         self.calls.push(PCall::Iter(s));
         Ok(())
     }
@@ -225,31 +230,36 @@ where
         let stack_name = ["directly", "behind translated()", "behind clipped()", "behind cropped()"][stack as usize];
         for (way, mode) in MODES.iter().skip(1) {
             let got = run(*mode);
-            if got.len() != reference.len() {
-                obs.fail("target-may-consume-iterators-in-any-way", format!("{name} {stack_name}: {} calls when the target consumes with {way}, {} with a next() loop", got.len(), reference.len()));
-                break;
-            }
-            let mut ok = true;
-            for (k, (r, g)) in reference.iter().zip(got.iter()).enumerate() {
-                let what = format!("{name} {stack_name}, call {k}");
-                ok = match (r, g) {
-                    (PCall::Iter(a), PCall::Iter(b)) => compare(&what, way, *mode, a, b, obs),
-                    (PCall::Contig(ra, a), PCall::Contig(rb, b)) if ra == rb => compare(&what, way, *mode, a, b, obs),
-                    (PCall::Solid(..), PCall::Solid(..)) | (PCall::Clear(_), PCall::Clear(_)) => r == g,
-                    _ => false,
-                };
-                if !ok {
-                    if obs.violations.is_empty() {
-                        obs.fail("target-may-consume-iterators-in-any-way", format!("{what}: another call when the target consumes with {way}: {:?} instead of {:?}", short(g), short(r)));
-                    }
-                    break;
-                }
-            }
-            if !ok {
+            if !compare_runs(&format!("{name} {stack_name}"), &reference, &got, way, *mode, obs) {
                 break;
             }
         }
     }
+}
+
+/// compares the calls a target saw when it consumed in way `mode` with the calls of the next() loop
+pub fn compare_runs<C: PartialEq + core::fmt::Debug>(name: &str, reference: &[PCall<C>], got: &[PCall<C>], way: &str, mode: u8, obs: &mut Obs) -> bool {
+    if got.len() != reference.len() {
+        obs.fail("target-may-consume-iterators-in-any-way", format!("{name}: {} calls when the target consumes with {way}, {} with a next() loop", got.len(), reference.len()));
+        return false;
+    }
+    for (k, (r, g)) in reference.iter().zip(got.iter()).enumerate() {
+        let what = format!("{name}, call {k}");
+        let before = obs.violations.len();
+        let ok = match (r, g) {
+            (PCall::Iter(a), PCall::Iter(b)) => compare(&what, way, mode, a, b, obs),
+            (PCall::Contig(ra, a), PCall::Contig(rb, b)) if ra == rb => compare(&what, way, mode, a, b, obs),
+            (PCall::Solid(..), PCall::Solid(..)) | (PCall::Clear(_), PCall::Clear(_)) => r == g,
+            _ => false,
+        };
+        if !ok {
+            if obs.violations.len() == before {
+                obs.fail("target-may-consume-iterators-in-any-way", format!("{what}: another call when the target consumes with {way}: {:?} instead of {:?}", short(g), short(r)));
+            }
+            return false;
+        }
+    }
+    true
 }
 
 fn short<C: core::fmt::Debug>(c: &PCall<C>) -> String {
